@@ -81,7 +81,8 @@ def taylor_replay(case):
 def tconc(case):
     import numdifftools.fornberg as fb
     from ndvc.concrete import taylor_cases
-    res = taylor_cases(fb)
+    from ndvc.concrete import taylor_hard_cases
+    res = dict(taylor_cases(fb)); res.update(taylor_hard_cases(fb))
     want = case.get('name')
     bad = [dict(case=k, **(v[1] or {})) for k, v in sorted(res.items()) if not v[0] and (want is None or k == want)]
     return dict(reproduced=bool(bad), failing=bad[:4], statement='taylor: n+1 coefficients, not degenerate/failed with defaults, error within 100 x estimate + 100 x floor')
